@@ -100,7 +100,8 @@ def worker(job):
                 close = lambda a, b: abs(a - b) <= 1e-10 * max(1.0, abs(b))  # noqa: E731
                 if close(vi, m["var_inflate"]) and close(mul, m["mu_lower_bound"]) and close(muu, m["mu_upper_bound"]):
                     if len(sub) >= 2:
-                        sg = math_utils.boot_sigma(lb, conf=q, winsorize=False, random_state=cp["seed"])
+                        mp_ = p.get("model_parameters", {})
+                        sg = mp_.get("beta", 1) * math_utils.boot_sigma(lb, conf=q, winsorize=mp_.get("winsorize", False), random_state=cp["seed"])
                         if not close(float(sg), m["sigma_lower_bound"]):
                             continue
                     levels.append(j)
